@@ -134,6 +134,7 @@ package vm
 // Execute: the invariant of tick holds at every step, so D never increases over a whole run.
 //@ func (*vm.Machine).Execute
 //@   requires minv(m)
+//@   modifies Machine.Stack, Machine.P, Machine.Postings, map[machine.Asset]*machine.MonetaryInt, map[string]machine.Value, map[machine.AccountAddress]map[string]machine.Value, machine.Funding.*, box machine.Allotment, box int, chan
 //@   ensures err == nil ==> minv(m) && (forall a machine.AccountAddress, t machine.Asset :: a != "world" ==> D(m, a, t) <= old(D(m, a, t)))
 //@   ensures err == nil ==> len(m.Stack) == 0
 //@   loop 1 invariant minv(m) && sameDomain(m) && m.Balances != nil && len(m.Resources) == len(m.UnresolvedResources)
@@ -142,7 +143,10 @@ package vm
 
 // Run: an execution error yields no result; otherwise the postings handed to the ledger are the machine's, field by field, in order.
 //@ func vm.Run
-//@   requires m != nil && minv(m)
+//@   requires m != nil
+// the machine is in the state ResolveResources/ResolveBalances leave it in: well-formed balance tables, empty stack, no postings
+//@   assumes minv(m)
+//@   modifies Machine.Stack, Machine.P, Machine.Postings, map[machine.Asset]*machine.MonetaryInt, map[string]machine.Value, map[machine.AccountAddress]map[string]machine.Value, machine.Funding.*, box machine.Allotment, box int, chan, map[string]string, map[string]metadata.Metadata
 //@   ensures err != nil ==> ret0 == nil
 //@   ensures err == nil ==> ret0 != nil && len(ret0.Postings) == len(m.Postings)
 //@   ensures err == nil ==> forall k in 0..len(m.Postings) :: ret0.Postings[k].Source == m.Postings[k].Source && ret0.Postings[k].Destination == m.Postings[k].Destination && ret0.Postings[k].Asset == m.Postings[k].Asset && ret0.Postings[k].Amount == m.Postings[k].Amount
@@ -180,3 +184,12 @@ package vm
 //@   requires bal + saved >= floor && bal2 >= bal
 //@   ensures bal2 + saved >= floor
 //@   property C01
+
+//@ func (*vm.Machine).SetVarsFromJSON
+//@   modifies Machine.Vars, map[string]string, map[string]machine.Value
+
+// resource and balance resolution read the store and fill the machine; frame: only the machine's own tables
+//@ func (*vm.Machine).ResolveResources
+//@   modifies Machine.resolveCalled, Machine.Resources, map[string]int, map[machine.Address]string
+//@ func (*vm.Machine).ResolveBalances
+//@   modifies Machine.Balances, Machine.Resources, map[machine.AccountAddress]map[machine.Asset]*machine.MonetaryInt, map[machine.Asset]*machine.MonetaryInt
